@@ -5,6 +5,7 @@ import Driver.C13
 import Driver.C02
 import Driver.PM
 import Driver.C09
+import Driver.C16
 
 def main (args : List String) : IO UInt32 := do
   match args with
@@ -15,4 +16,5 @@ def main (args : List String) : IO UInt32 := do
   | "C02" :: rest => DriverC02.main rest; return 0
   | "PM" :: rest => DriverPM.main rest; return 0
   | "C09" :: rest => DriverC09.main rest; return 0
+  | "C16" :: rest => DriverC16.main rest; return 0
   | _ => IO.eprintln "usage: gvdriver <Cxx> [mode] < history"; return 2
